@@ -79,6 +79,7 @@ func verifCheckAlloc() {
 func verifReach(tag string)              {}
 func verifNote(tag string)               {}
 func verifYield()                        {}
+func verifQuiesce()                      {}
 
 func verifNondetString(tag string, maxLen int) string {
 	return string(verifNondetBytes(tag, maxLen))
